@@ -9,6 +9,7 @@ package dawn
 import (
 	"bytes"
 	"fmt"
+	"math/bits"
 	"math/rand/v2"
 	"os"
 	"path/filepath"
@@ -27,6 +28,30 @@ func c03Gen(r *rand.Rand, tier string) any {
 	sc := &histScenario{Spec: genProject(r, o), Proc: genProc(r)}
 	sc.Proc.Strategy = []int{simrt.StratUniform, simrt.StratSticky, simrt.StratFIFO, simrt.StratRoundRobin}[r.IntN(4)]
 	shadow := sc.clone().Spec
+	sc.Mode = []string{"crash", "crash", "crash", "fail", "fail", "ioerr", "compose"}[r.IntN(7)]
+	if sc.Mode == "fail" && r.IntN(3) != 0 {
+		// a full build, then edits, then the same label again with failing bodies: the failed
+		// targets have dependents whose records date from the first build
+		label := pickLabel(r, shadow)
+		sc.Ops = append(sc.Ops, opSpec{Op: "build", Label: label})
+		for k := 0; k < 1+r.IntN(2); k++ {
+			op := genSemanticEdit(r, shadow, k+1)
+			if r.IntN(2) == 0 {
+				var files []string
+				for f := range shadow.Files {
+					files = append(files, f)
+				}
+				sort.Strings(files)
+				if len(files) > 0 {
+					op = &opSpec{Op: "edit-source", Path: files[r.IntN(len(files))], N: k + 1}
+				}
+			}
+			shadow.applySpecEdit(op)
+			sc.Ops = append(sc.Ops, *op)
+		}
+		sc.Ops = append(sc.Ops, opSpec{Op: "build", Label: label})
+		return sc
+	}
 	// an optional prefix so that the interrupted build is an incremental one
 	if r.IntN(2) == 0 {
 		sc.Ops = append(sc.Ops, opSpec{Op: "build", Label: pickLabel(r, shadow)})
@@ -37,7 +62,6 @@ func c03Gen(r *rand.Rand, tier string) any {
 		}
 	}
 	sc.Ops = append(sc.Ops, opSpec{Op: "build", Label: pickLabel(r, shadow)})
-	sc.Mode = []string{"crash", "crash", "crash", "fail", "ioerr", "compose"}[r.IntN(6)]
 	return sc
 }
 
@@ -325,7 +349,49 @@ func c03Exec(scAny any, c *simcheck.Ctx) *simcheck.Violation {
 				return narrow(simcheck.V("failure-not-reported", "the bodies of %v failed but the build reported success", failed), mi)
 			}
 			what := fmt.Sprintf("bodies of %v failed", op.Fail)
-			if v := h.recoverAndCheck("fail", last+1, final.Label, want, failed, what); v != nil {
+			recIdx := last + 1
+			var stillFailed []string
+			stillFailed = append(stillFailed, failed...)
+			if bits.OnesCount(uint(m))%2 == 1 {
+				// "followed by arbitrary further builds": first repair the failed targets one by
+				// one with partial builds of just them, then build the original label
+				for _, l := range failed {
+					pc := h.pc
+					pc.CrashAt, pc.IOErrAt, pc.TornFrac = 0, nil, 0
+					r2 := h.build(recIdx, &opSpec{Op: "build", Label: l}, pc, nil)
+					if v := procFailure(r2); v != nil {
+						if v.Class != simcheck.EngineError {
+							v.Class = "recovery-build-" + v.Class
+						}
+						return narrow(v, mi)
+					}
+					if r2.LoadErr != nil {
+						return narrow(simcheck.V("state-not-loadable", "%s; then the project no longer loads: %v", what, r2.LoadErr), mi)
+					}
+					if r2.RunErr == nil {
+						started := false
+						for _, sl := range h.startsIn(recIdx) {
+							if sl == l {
+								started = true
+							}
+						}
+						if !started {
+							return narrow(simcheck.V("unfinished-not-rerun", "%s; a build of %s alone did not re-execute it", what, l), mi)
+						}
+						var rest []string
+						for _, x := range stillFailed {
+							if x != l {
+								rest = append(rest, x)
+							}
+						}
+						stillFailed = rest
+					}
+					recIdx++
+				}
+				what += "; the failed targets were then rebuilt one by one"
+				c.St.Count("partial_recoveries", 1)
+			}
+			if v := h.recoverAndCheck("fail", recIdx, final.Label, want, stillFailed, what); v != nil {
 				return narrow(v, mi)
 			}
 		}
